@@ -178,6 +178,12 @@ func runC04(c *Ctx) {
 	// ---- (c) copy discipline
 	checkCopyDiscipline(r, p)
 	checkKVStoreTrustedHelpers(r, p)
+	// every operation of the shared map is ONE step of the realm||key map (one critical section of its
+	// lock): a prefix deletion that scans and deletes in two sections is not an operation of any
+	// single ordered map when writers on other views come in between (shared with C05)
+	for _, typ := range []string{"syncedKVMap", "mapDB", "batchedMutations"} {
+		checkAtomicOperations(r, p, "atomic/one-section-per-operation", mp, typ)
+	}
 	// ---- (d) ordering
 	checkIterationOrder(r, p)
 	// ---- (e) batch
